@@ -241,7 +241,7 @@ func digestResults(rs []sim.Result) string {
 		for _, e := range r.Events {
 			fmt.Fprintf(h, "%s|%q|%d|%d\n", e.Kind, e.Data, e.N, e.T)
 		}
-		fmt.Fprintf(h, "exit=%d ret=%v panic=%q budget=%v ticks=%d\n", r.Exit, r.Returned, r.Panic, r.Budget, r.Ticks)
+		fmt.Fprintf(h, "exit=%d ret=%v panic=%q budget=%v ticks=%d sw=%d j=%d f=%d\n", r.Exit, r.Returned, r.Panic, r.Budget, r.Ticks, r.Switches, r.TimeJumps, r.TimersFired)
 	}
 	return hex.EncodeToString(h.Sum(nil))[:32]
 }
@@ -360,13 +360,15 @@ func (s *Stats) ObserveRun(cfg sim.Config, r sim.Result) {
 			s.Count("host_panics", 1)
 		case "GO":
 			s.Count("sched.goroutines_started_by_the_program", 1)
-		case "FIRE":
-			s.Count("sched.timers_fired", 1)
-		case "JUMP":
-			s.Count("sched.time_jumps_while_every_task_waited", 1)
 		case "BUDGET":
 			s.Count("budget_exceeded", 1)
 		}
+	}
+	if r.TimersFired > 0 {
+		s.Count("sched.timers_fired", int64(r.TimersFired))
+	}
+	if r.TimeJumps > 0 {
+		s.Count("sched.time_jumps_while_every_task_waited", int64(r.TimeJumps))
 	}
 	if r.Switches > 0 {
 		s.Count("sched.task_switches", int64(r.Switches))
